@@ -10,6 +10,14 @@ PY = "/venv/bin/python"
 
 CHECKS = {
     # id: (category, technique, text, note, design_ref, engine)
+    "C05": (
+        "exploration",
+        "schedule + input + configuration search: Hypothesis-generated producer scripts, batcher configurations and schedules (walk/PCT/seq, line-level yield points in state.py; all schedules with <=2 preemptions for listed small configurations) run the real ExecutionState and batcher thread under the deterministic scheduler against a recording client; stream-monitor oracle on call intervals",
+        "Exactly-once delivery, hand-over order (per producer and across non-overlapping calls), token chaining, count/size limits and release of every synchronous caller are checked on each generated (config, scripts, schedule). Hangs are observable states (deadlock / virtual-time cap), not wall-clock timeouts. Sampling beyond the enumerated small configurations.",
+        "The recording client never fails (C06 covers failures). Size is the SDK's documented estimate. Interleavings finer than a source line are not explored.",
+        "DESIGN.md §2 C05",
+        "E1 detsched",
+    ),
     "C15": (
         "exploration",
         "property-based testing (Hypothesis): round-trip oracle with type-aware equality over a recursive grammar of the serializer's domain, plus a reject-set generator; thorough adds a coverage-guided atheris/libFuzzer stage over the same property",
